@@ -11,13 +11,12 @@ R/V : universe meshes x cell subsets x tag subsets and random compositions (leng
 import dataclasses
 import itertools
 import json
-import os
 
 import numpy as np
 
 from .. import universe as U
 from ..core import guarded
-from ..project import NVERT, exact_int
+from ..project import exact_int
 from ..tags_common import common_scale, mesh_am, mesh_checksums, points_enc, quiet, kind_of
 
 RULE = ('scenario = an initial mesh (integer / dyadic coordinates) with named sub-domains and boundaries and a '
@@ -412,11 +411,11 @@ def _adjacent_other(m, rng, same_kind=True):
 
 
 def _line_spec(rng):
-    pts = sorted(set(int(x) for x in rng.integers(0, 5, size=int(rng.integers(2, 5)))))
+    pts = sorted(set(int(x) for x in rng.integers(0, 6, size=int(rng.integers(3, 6)))))
     if len(pts) < 2:
         pts = [0, 2]
     p, t = U.line_points(pts)
-    if rng.random() < 0.5:        # arbitrary vertex numbering of the same connected line mesh
+    if rng.random() < 0.7:        # arbitrary vertex numbering of the same connected line mesh
         perm = rng.permutation(p.shape[1])
         p, t = U.renumber(p, t, perm)
     return _mesh_spec('line', p, t)
@@ -598,7 +597,6 @@ def compose(spec, rng, length, allow=ALL_OPS, first=None):
 
 
 def base_specs(tier, rng):
-    thorough = tier == 'thorough'
     out = []
     for dg in ((0, 0, 0, 0), (1, 0, 0, 1)):
         p, t = U.tri_lattice(2, 2, dg)
